@@ -47,6 +47,7 @@ fn add_hist_counters(ctx: &mut Ctx, c: &hist::HistCounters) {
     ctx.add("sock_probes", c.probes);
     ctx.add("sock_envelope_violations_sent", c.envelope_violations_sent);
     ctx.add("sock_messages_ending_in_empty_frame", c.messages_ending_in_empty_frame);
+    ctx.add("sock_frames_beyond_64k", c.frames_beyond_64k);
     ctx.add("sock_reconnects_under_the_same_identity", c.reconnects_same_identity);
     ctx.add("sock_cooperative_yields", c.cooperative_yields);
     ctx.add("drops_total", c.drops_total);
@@ -413,6 +414,110 @@ async fn many_idle_peers(me: &str, ctx: &mut Ctx, ty: &str, n: usize, seed: u64,
     }
 }
 
+/// Targeted: (a) a peer's connection ends, the socket notices, the peer comes back under
+/// its identity and sends SEVERAL messages; (b) a peer sends a command the library does not
+/// know, then a short complete message, then nothing: the message is returned or the
+/// connection is given up with an error — never neither.
+async fn targeted_streams(me: &str, ctx: &mut Ctx, ty: &str, what: &str, case: &Value) {
+    use crate::sock::{peer_type_for, Peer, Sock};
+    let lost = |ty: &str| if me == "C06" { format!("C06/available-message-never-returned/{ty}") } else { format!("C05/message-never-delivered/{ty}") };
+    let mut sock = Sock::new(ty, None);
+    if ty == "SUB" {
+        let _ = crate::sim::complete(sock.subscribe("")).await;
+    }
+    let wire = |payload: &crate::refcodec::Frames| -> crate::refcodec::Frames {
+        if ty == "REP" {
+            let mut w = vec![vec![]];
+            w.extend(payload.clone());
+            w
+        } else {
+            payload.clone()
+        }
+    };
+    let bystander = Peer::attach(&sock, peer_type_for(ty), Some(b"bystander")).await.ok();
+    let Ok(a) = Peer::attach(&sock, peer_type_for(ty), Some(b"comes-back")).await else {
+        ctx.inconclusive(format!("{me} attach"));
+        return;
+    };
+    let skip = if ty == "ROUTER" { 1 } else { 0 };
+    let mut reply_if_rep = |sock: &mut Sock| {
+        let _ = sock;
+    };
+    let _ = &mut reply_if_rep;
+    match what {
+        "reconnect-noticed" => {
+            a.send(&wire(&crate::refcodec::tagged(1, 0, &[3])));
+            if !matches!(recv_now(&mut sock).await, Some(Ok(_))) {
+                ctx.inconclusive(format!("{me} targeted: first message not received"));
+                return;
+            }
+            if ty == "REP" {
+                let _ = crate::sim::complete(sock.send(&crate::refcodec::tagged(9, 0, &[1]))).await;
+            }
+            a.conn.close_full(crate::pipe::EndKind::Eof);
+            let _ = recv_now(&mut sock).await; // the end is noticed (nothing to return)
+            let Ok(b) = Peer::attach(&sock, peer_type_for(ty), Some(b"comes-back")).await else {
+                ctx.violation_with(&format!("{me}/reconnect-rejected/{ty}"), "a peer coming back under its identity was rejected".into(), case.clone());
+                return;
+            };
+            for i in 1..=4u32 {
+                b.send(&wire(&crate::refcodec::tagged(1, i, &[(i as usize) * 3, 0])));
+                match recv_now(&mut sock).await {
+                    Some(Ok(m)) if crate::refcodec::parse_tag(&m, skip).map(|t| t.seq == i).unwrap_or(false) => {}
+                    other => {
+                        ctx.violation_with(
+                            &lost(ty),
+                            format!("a peer's connection ended (noticed by the socket), the peer came back under its identity; message #{i} on the new connection: recv gave {other:?}"),
+                            case.clone(),
+                        );
+                        return;
+                    }
+                }
+                if ty == "REP" {
+                    let _ = crate::sim::complete(sock.send(&crate::refcodec::tagged(9, i, &[1]))).await;
+                }
+                ctx.count("messages_after_a_noticed_end_and_reconnect");
+            }
+        }
+        _ => {
+            // unknown command (7-byte body), then a message shorter than that body
+            a.conn.feed(&crate::refcodec::command(b"PING", &[0, 1, 2, 3, 4, 5, 6]));
+            a.conn.feed(&crate::refcodec::message(&wire(&vec![b"ok".to_vec()])));
+            let mut outcome = None;
+            for _ in 0..3 {
+                match recv_now(&mut sock).await {
+                    Some(Ok(m)) => {
+                        outcome = Some(format!("message {}", crate::refcodec::frames_summary(&m)));
+                        break;
+                    }
+                    Some(Err(_)) => {
+                        outcome = Some("error".into());
+                        break;
+                    }
+                    None => {}
+                }
+            }
+            let gave_up = a.conn.reader_dropped();
+            if outcome.is_none() && !gave_up {
+                ctx.violation_with(
+                    &lost(ty),
+                    "a peer sent a command the library does not know (PING, 7-byte body), then the complete message ['ok'], then nothing: recv neither returns the message nor reports an error, and the connection is still held".into(),
+                    case.clone(),
+                );
+                return;
+            }
+            ctx.count("short_messages_behind_an_unknown_command");
+        }
+    }
+    // the bystander is served all along
+    if let Some(bp) = bystander {
+        bp.send(&wire(&crate::refcodec::tagged(2, 0, &[5])));
+        if !matches!(recv_now(&mut sock).await, Some(Ok(_))) {
+            ctx.violation_with(&lost(ty), "a bystander's message was not delivered afterwards".into(), case.clone());
+        }
+    }
+}
+
 fn busy_recv_case(me: &str, case: &Value, ctx: &mut Ctx) {
     use std::process::{Command, Stdio};
     let ty = s(case, "ty").to_string();
@@ -486,6 +591,13 @@ fn busy_recv_case(me: &str, case: &Value, ctx: &mut Ctx) {
 fn run_case(me: &str, case: &Value, ctx: &mut Ctx) {
     match s(case, "kind") {
         "busy_recv" => busy_recv_case(me, case, ctx),
+        "targeted" => {
+            ctx.eval(crate::prng::hash_str(&case.to_string()), true);
+            ctx.sample("targeted", || case.clone());
+            let ty = s(case, "ty").to_string();
+            let what = s(case, "what").to_string();
+            sim::run(targeted_streams(me, ctx, &ty, &what, case));
+        }
         "many_idle" => {
             ctx.eval(crate::prng::hash_str(&case.to_string()), true);
             ctx.sample("many_idle", || case.clone());
@@ -643,6 +755,11 @@ fn common_cases(tier: Tier, seed: u64, me: &str) -> Vec<Value> {
         }
     }
     for ty in FQ_TYPES {
+        for what in ["reconnect-noticed", "unknown-command-then-short-message"] {
+            v.push(json!({"kind": "targeted", "ty": ty, "what": what}));
+        }
+    }
+    for ty in FQ_TYPES {
         for n in [33usize, 40, 70, 130] {
             for k in 0..tier.pick(2u64, 20) {
                 v.push(json!({"kind": "many_idle", "ty": ty, "n": n, "seed": mix(seed ^ 0x1D7E ^ k)}));
@@ -707,6 +824,9 @@ impl Prop for C05 {
             ("sock_cooperative_yields", 100),
             ("rig_messages_delivered", 5000),
             ("messages_from_one_of_many_idle_peers", 300),
+            ("messages_after_a_noticed_end_and_reconnect", 20),
+            ("short_messages_behind_an_unknown_command", 6),
+            ("sock_frames_beyond_64k", 50),
         ]
     }
     fn case_timeout(&self) -> std::time::Duration {
